@@ -4,6 +4,7 @@
     document and the auto-submit form / redirect query return these values to a parser (Codec.XmlEscape, Codec.HtmlEsc,
     Codec.QueryEscape round trips); IDs and instants are supplied by the runtime and checked by the harness. *)
 From Saml Require Import Xml.SchemaTypes Xml.Schema Gen.Schema Xml.SamlSpec.
+From Saml Require Import Idp.BuilderTypes Idp.Builder Idp.BuiltDoc.
 From Saml Require Import Base.Bytes Idp.FactTypes Gen.Facts Idp.Callback Idp.Deliver Core.Attrs Proofs.CallbackProofs
   Codec.QueryEscape Codec.XmlEscape Codec.HtmlEsc.
 
@@ -73,6 +74,37 @@ Proof. exact deliver_from_source. Qed.
 Theorem C03_schema : forallb (conforms xml_schema) saml_spec = true.
 Proof. exact saml_spec_conforms. Qed.
 
+(** the response document itself, from the source of response.go / attributes.go (builder programs regenerated by go2v)
+    and the struct tags: for every request ID, consumer URL, issuer, audience, user and clock reading, InResponseTo is on
+    the response and in the subject confirmation, Destination = Recipient = the consumer URL (both absent when it is
+    empty), Issuer on response and assertion, NotBefore = IssueInstant, both NotOnOrAfter = the expiry, the audience is
+    exactly the service provider, NameID is the user name, and message, assertion and session index carry the fresh
+    identifiers in call order *)
+Theorem C03_built_response : forall reqid acs issuer audience email full given sur userid username id1 id2 rest issue until,
+  exists d, built_value "makeSuccessfulResponse" (Some (response_rec reqid acs issuer audience))
+              [attributes_rec email full given sur userid username []; DStr (b "f"); DNil] (id1 :: id2 :: rest) issue until = Some (d, rest) /\
+    at_ d ["Id"%string] = Some (DStr id1) /\ at_ d ["Assertion"; "Id"]%string = Some (DStr id2) /\
+    at_ d ["InResponseTo"%string] = Some (DStr reqid) /\ dget d (sc_data ++ [PField "InResponseTo"]) = Some (DStr reqid) /\
+    at_ d ["Destination"%string] = (if is_empty acs then None else Some (DStr acs)) /\
+    dget d (sc_data ++ [PField "Recipient"]) = (if is_empty acs then None else Some (DStr acs)) /\
+    at_ d ["Issuer"; "Text"]%string = Some (DStr issuer) /\ at_ d ["Assertion"; "Issuer"; "Text"]%string = Some (DStr issuer) /\
+    at_ d ["IssueInstant"%string] = Some (DStr issue) /\ at_ d ["Assertion"; "IssueInstant"]%string = Some (DStr issue) /\
+    at_ d ["Assertion"; "Conditions"; "NotBefore"]%string = Some (DStr issue) /\
+    at_ d ["Assertion"; "Conditions"; "NotOnOrAfter"]%string = Some (DStr until) /\ dget d (sc_data ++ [PField "NotOnOrAfter"]) = Some (DStr until) /\
+    dget d [PField "Assertion"; PField "Conditions"; PField "AudienceRestriction"; PIndex 0; PField "Audience"] = Some (DList [DStr audience]) /\
+    at_ d ["Assertion"; "Subject"; "NameID"; "Text"]%string = Some (DStr username) /\
+    at_ d ["Status"; "StatusCode"; "Value"]%string = Some (DStr (b "urn:oasis:names:tc:SAML:2.0:status:Success")) /\
+    dget d [PField "Assertion"; PField "AuthnStatement"; PIndex 0; PField "SessionIndex"] = Some (DStr id2).
+Proof. exact success_response_fields. Qed.
+(** ... and the attribute statement: the six standard attributes, present iff not empty, in the code's order *)
+Theorem C03_built_attributes : forall email full given sur userid username fr issue until,
+  built_value "GetSAML" (Some (attributes_rec email full given sur userid username [])) [] fr issue until =
+    Some (DList (std_attr "Email" email ++ std_attr "SurName" sur ++ std_attr "FirstName" given ++ std_attr "FullName" full ++
+                 std_attr "UserName" username ++ std_attr "UserID" userid), fr) /\
+  built_value "GetNameID" (Some (attributes_rec email full given sur userid username [])) [] fr issue until =
+    Some (DObj "saml.NameIDType" [("Format"%string, DStr (b "urn:oasis:names:tc:SAML:1.1:nameid-format:emailAddress")); ("Text"%string, DStr username)], fr).
+Proof. exact getsaml_standard. Qed.
+
 Print Assumptions C03_fields.
 Print Assumptions C03_attributes.
 Print Assumptions C03_wire_xml.
@@ -80,3 +112,5 @@ Print Assumptions C03_wire_query.
 Print Assumptions C03_wire_form.
 Print Assumptions C03_delivery_from_source.
 Print Assumptions C03_schema.
+Print Assumptions C03_built_response.
+Print Assumptions C03_built_attributes.
